@@ -1171,3 +1171,120 @@ Section DRet.
     - intros u w0 E. discriminate E.
   Qed.
 End DRet.
+
+Lemma norm_nil : forall fuel s acc ev, norm fuel s acc [] ev = (s, acc, [], ev).
+Proof. intros [|f] s acc ev; reflexivity. Qed.
+
+Ltac dret L s t K :=
+  eapply (L s _ t);
+  [ reflexivity | reflexivity | reflexivity | reflexivity | intros ? ?; thr_simpl | exact K
+   | cbn -[Nat.eqb]; unfold updN, th; rewrite ?Nat.eqb_refl; cbn -[Nat.eqb]; unfold updN, th; rewrite ?Nat.eqb_refl; cbn -[Nat.eqb]; exact K
+   | thr_simpl | thr_simpl | .. ].
+
+Lemma settle_D : forall st m t ev done st' ev' p,
+  CInv (core st) -> SlInv st -> DRel p st m -> BRel st (m12_b m) -> (t < nthr st)%nat ->
+  (forall j, In j (tfinal (thr st t)) -> finok j) -> (t = main -> tfinal (thr st t) = []) ->
+  (done = None -> p = DNone) ->
+  (forall v, done = Some v ->
+     tcont (thr st t) = [] /\ exists c, tcur (thr st t) = Some c /\ p = pbegin t c (Some v) /\ (forall w, c = CDropW w -> v <> RUnit)) ->
+  settle st t ev done = (st', ev') ->
+  exists tail, ev' = ev ++ tail /\ DRel DNone st' (fold_left m12_step (evs t tail) m).
+Proof.
+  intros st m t ev done st' ev' p I S R B Ht Hfin Hfm HdN HdS H. unfold settle in H.
+  destruct (norm (2 * (cont_size (tcont (th st t)) + length (tacc (th st t))) + 2) (sl st) (tacc (th st t)) (tcont (th st t)) ev)
+    as [[[s1 acc1] k1] ev1] eqn:En.
+  cbn zeta in H.
+  destruct (norm_dels _ _ _ _ _ _ _ _ _ En) as [dels [Edels Hdels]].
+  assert (Pd : forall e, In e dels -> c12_plain e) by (intros e He; destruct (Hdels e He) as [x [h ->]]; exact Logic.I).
+  assert (Pd' : forall e, In e dels -> plain e) by (intros e He; destruct (Hdels e He) as [x [h ->]]; exact Logic.I).
+  set (m1 := fold_left m12_step (evs t dels) m).
+  assert (Sm : m12_same m m1) by (apply m12_plain_fold; exact Pd).
+  assert (Gt1 : get_tid t (b_cur (m12_b m1)) = tcur (thr st t)).
+  { unfold m1. rewrite m12_b_fold. destruct (mb_fold_plain t dels (m12_b m) Pd') as [A1 _]. cbn zeta in A1. rewrite A1.
+    apply (br_cur st _ B t Ht). }
+  set (st1 := set_sl (upd_th st t (set_tacc (set_tcont (th st t) k1) acc1)) s1) in *.
+  assert (T1 : tcont (thr st1 t) = k1) by (unfold st1; cbn -[Nat.eqb]; unfold updN, th; rewrite Nat.eqb_refl; reflexivity).
+  assert (Th1 : forall u, tcur (thr st1 u) = tcur (thr st u) /\ tret (thr st1 u) = tret (thr st u) /\ tfinal (thr st1 u) = tfinal (thr st u)).
+  { intro u. unfold st1. cbn -[Nat.eqb]. unfold updN, th. destruct (Nat.eqb_spec u t) as [E|E]; [rewrite E|]; auto. }
+  assert (To1 : forall u, u <> t -> tcont (thr st1 u) = tcont (thr st u)).
+  { intros u Hu. unfold st1. cbn -[Nat.eqb]. unfold updN, th. destruct (Nat.eqb_spec u t); [congruence|reflexivity]. }
+  assert (Steq : s1 = sl st -> k1 = tcont (thr st t) -> DRel p st1 m1).
+  { intros E1 E2. apply (d_msame _ _ m); [|exact Sm]. apply (d_steq _ st); auto; try (unfold st1; cbn; congruence).
+    intro u. destruct (Th1 u) as [A [B0 C]]. split; [|auto].
+    destruct (Nat.eq_dec u t) as [->|Hu]; [rewrite T1; exact E2|apply To1; exact Hu]. }
+  assert (R1 : DRel p st1 m1).
+  { destruct (tcont (thr st t)) as [|i0 r0] eqn:Ek.
+    - unfold th in En. rewrite Ek, norm_nil in En. injection En as E1 _ E3 _. apply Steq; auto.
+    - assert (Pn : p = DNone).
+      { destruct done as [v|]; [destruct (HdS v eq_refl) as [X _]; discriminate X|apply HdN; reflexivity]. }
+      subst p. destruct (Nat.eq_dec t main) as [->|Hn].
+      + apply (d_msame _ _ m); [|exact Sm]. change st1 with (NS st s1 acc1 k1). clear H Steq T1 Th1 To1. clearbody st1.
+        eapply norm_D; [| | |exact En].
+        * eapply CInv_ceq; [|exact I]. unfold NS. same_core.
+        * unfold NS. sl_irr st.
+        * apply (d_steq _ st); auto. intro u. unfold NS. repeat split; thr_simpl.
+      + rewrite norm_id in En; [|intros j Hj; apply (i_mainonly _ I t Hn); exact Hj].
+        injection En as E1 _ E3 _. apply Steq; auto. unfold th in E3. rewrite <- E3. exact Ek. }
+  assert (Hk1 : done <> None -> k1 = []).
+  { intro D. destruct done as [v|]; [|congruence]. destruct (HdS v eq_refl) as [X _]. unfold th in En. rewrite X, norm_nil in En. injection En as _ _ E3 _. auto. }
+  assert (F1 : tfinal (thr st1 t) = tfinal (thr st t)) by apply Th1.
+  clearbody st1.
+  match type of H with (let '(st2, ev2) := ?E in _) = _ => destruct E as [st2 ev2] eqn:E2 end.
+  assert (R2 : exists tl2, ev2 = ev1 ++ tl2 /\ DRel DNone st2 (fold_left m12_step (evs t tl2) m1) /\
+                           tfinal (thr st2 t) = tfinal (thr st t)).
+  { destruct done as [v|].
+    - inversion E2; subst st2 ev2. exists [ERet v]. split; [reflexivity|]. split; [|rewrite <- F1; thr_simpl].
+      destruct (HdS v eq_refl) as [_ [c [Hu [Hp Hr]]]]. cbn [evs map fold_left].
+      assert (K1 : tcont (thr st1 t) = []) by (rewrite T1; apply Hk1; discriminate).
+      assert (G1 : get_tid t (b_cur (m12_b m1)) = Some c) by (rewrite Gt1; exact Hu).
+      assert (Dc : (exists w, c = CDropW w) \/ (forall w, c <> CDropW w)).
+      { destruct c; try (right; intros; discriminate). left; eauto. }
+      destruct Dc as [[w ->]|Nc].
+      + cbn [pbegin] in Hp. subst p.
+        dret d_ret_bad st1 t K1; [exact R1|exact G1|apply (Hr w); reflexivity].
+      + assert (Pn : p = DNone) by (rewrite Hp; destruct c; try reflexivity; exfalso; eapply (Nc w); reflexivity). rewrite Pn in R1.
+        dret d_ret_plain st1 t K1; [exact R1|exact G1|exact Nc].
+    - pose proof (HdN eq_refl) as Pn. subst p. destruct k1.
+      + destruct (tcur (th st1 t)) as [c|] eqn:Ec.
+        * inversion E2; subst st2 ev2. exists [ERet (tret (th st1 t))]. split; [reflexivity|].
+          split; [|rewrite <- F1; destruct c; thr_simpl].
+          cbn [evs map fold_left]. unfold th in Ec.
+          assert (G1 : get_tid t (b_cur (m12_b m1)) = Some c) by (rewrite Gt1, <- (proj1 (Th1 t)); exact Ec).
+          assert (Dc : (exists w, c = CDropW w) \/ (forall w, c <> CDropW w)).
+          { destruct c; try (right; intros; discriminate). left; eauto. }
+          destruct Dc as [[w ->]|Nc].
+          -- dret d_ret_unit st1 t T1; [exact R1|exact G1|exact Ec].
+          -- eapply (d_ret_plain st1 _ t); [destruct c; reflexivity|destruct c; reflexivity|destruct c; reflexivity|destruct c; reflexivity
+               |intros ? ?; destruct c; thr_simpl|exact T1
+               |destruct c; cbn -[Nat.eqb]; unfold updN, th; rewrite ?Nat.eqb_refl; cbn -[Nat.eqb]; unfold updN, th; rewrite ?Nat.eqb_refl; cbn -[Nat.eqb]; exact T1
+               |destruct c; thr_simpl|destruct c; thr_simpl|exact R1|exact G1|exact Nc].
+        * inversion E2; subst st2 ev2. exists []. rewrite app_nil_r. split; [reflexivity|]. cbn. split; [exact R1|exact F1].
+      + inversion E2; subst st2 ev2. exists []. rewrite app_nil_r. split; [reflexivity|]. cbn. split; [exact R1|exact F1]. }
+  destruct R2 as [tl2 [E2' [R2 F2]]].
+  set (m2 := fold_left m12_step (evs t tl2) m1) in *.
+  assert (Fin : exists tl3, ev' = ev2 ++ tl3 /\ DRel DNone st' (fold_left m12_step (evs t tl3) m2)).
+  { destruct (tcont (th st2 t)) eqn:Ec; [|inversion H; subst; exists []; rewrite app_nil_r; auto].
+    destruct (tscript (th st2 t)) eqn:Es; [|inversion H; subst; exists []; rewrite app_nil_r; auto].
+    destruct (tcur (th st2 t)) eqn:Eu; [inversion H; subst; exists []; rewrite app_nil_r; auto|].
+    destruct (tfinal (th st2 t)) eqn:Ef; inversion H; subst st' ev'; clear H.
+    - destruct (is_main t); [exists []; rewrite app_nil_r; auto|].
+      exists [EExit]. split; [reflexivity|]. eapply d_msame; [exact R2|apply m12_plain_fold; intros e [<-|[]]; exact Logic.I].
+    - exists []. rewrite app_nil_r. split; [reflexivity|]. cbn [evs map fold_left]. unfold th in *.
+      assert (Nm : t <> main) by (intro E; apply Hfm in E; rewrite <- F2, Ef in E; discriminate E).
+      apply (d_frame st2 _ m2 t R2); try reflexivity; auto.
+      + intros u Hu. split; [thr_simpl|]. intros w. thr_impl.
+      + intros w. cbn -[Nat.eqb]. unfold updN, th. rewrite Nat.eqb_refl. cbn. rewrite Eu. discriminate.
+      + cbn -[Nat.eqb]. unfold updN, th. rewrite Nat.eqb_refl. cbn. rewrite ?Ef. intros j Hj [h [d X]]. subst j. change (In (IYieldH h d) (i :: l)) in Hj.
+        rewrite <- Ef, F2 in Hj. apply Hfin in Hj. exact Hj.
+      + cbn -[Nat.eqb]. unfold updN, th. rewrite Nat.eqb_refl. cbn -[cont_dels]. rewrite ?Ef.
+        assert (Z0 : forall k, (forall j, In j k -> finok j) -> cont_dels k = []).
+        { induction k as [|j k IH]; intro Hk; [reflexivity|]. rewrite cont_dels_cons, IH by (intros; apply Hk; right; assumption).
+          pose proof (Hk j (or_introl eq_refl)) as Fj. destruct j; cbn in Fj; try contradiction. destruct a; cbn in Fj; try contradiction; reflexivity. }
+        apply Z0. intros j Hj. apply Hfin. rewrite <- F2, Ef. exact Hj.
+      + intros u x w. unfold tpushes. cbn -[Nat.eqb]. unfold updN, th. destruct (Nat.eqb_spec u t) as [->|]; [|auto]. cbn -[pushes]. rewrite ?Ec, ?Ef.
+        cbn [pushes flat_map app]. rewrite ?app_nil_r. intro Hin. exact Hin. }
+  destruct Fin as [tl3 [E3 R3]].
+  exists (dels ++ tl2 ++ tl3). split.
+  - rewrite E3, E2', Edels. rewrite <- !app_assoc. reflexivity.
+  - rewrite !evs_app, !fold_left_app. exact R3.
+Qed.
